@@ -371,6 +371,9 @@ impl<'a> CodeGenerator<'a> {
     fn finalize(&mut self, mut term: Term<Name>) -> Program<Name> {
         term = self.special_functions.apply_used_functions(term);
 
+        #[cfg(feature = "verif-hooks")]
+        verif_hooks::record_pre_optimisation(&self.new_program(term.clone()));
+
         let program = aiken_optimize_and_intern(self.new_program(term));
 
         // This is very important to call here.
@@ -5462,5 +5465,25 @@ fn handle_assigns(
 
             builtins_to_add.produce_air(prev_subject_name, prev_tipo, assignment)
         }
+    }
+}
+
+/// Verification hook: every program handed to the optimiser is also pushed, unoptimised,
+/// into a thread-local sink that the verification harness drains.
+#[cfg(feature = "verif-hooks")]
+pub mod verif_hooks {
+    use std::cell::RefCell;
+    use uplc::ast::{Name, Program};
+
+    thread_local! {
+        static PRE_OPTIMISATION: RefCell<Vec<Program<Name>>> = const { RefCell::new(Vec::new()) };
+    }
+
+    pub fn record_pre_optimisation(program: &Program<Name>) {
+        PRE_OPTIMISATION.with(|sink| sink.borrow_mut().push(program.clone()));
+    }
+
+    pub fn drain_pre_optimisation() -> Vec<Program<Name>> {
+        PRE_OPTIMISATION.with(|sink| std::mem::take(&mut *sink.borrow_mut()))
     }
 }
